@@ -1372,6 +1372,29 @@ namespace bloch::runtime {
             for (const auto& v : cls->staticStorage) markValue(v);
         }
         markValue(m_returnValue);
+        // Values the interpreter holds only in C++ temporaries while an expression is being
+        // evaluated (already evaluated call arguments, the receiver of a call in progress, an
+        // object whose constructor arguments are still being evaluated, operands) are not in
+        // any scope. Treat every object that is referenced from outside the heap graph as a
+        // root: its reference count exceeds the references found in other objects' fields
+        // (plus the one held by 'objects' above).
+        {
+            std::unordered_map<const Object*, long> internalRefs;
+            for (const auto& obj : objects) {
+                for (const auto& f : obj->fields) {
+                    if (f.type == Value::Type::Object && f.objectValue)
+                        internalRefs[f.objectValue.get()]++;
+                    for (const auto& e : f.objectArray)
+                        if (e)
+                            internalRefs[e.get()]++;
+                }
+            }
+            for (const auto& obj : objects) {
+                long external = static_cast<long>(obj.use_count()) - 1 - internalRefs[obj.get()];
+                if (external > 0)
+                    markObject(obj);
+            }
+        }
         // Sweep unmarked non-tracked objects
         std::vector<std::shared_ptr<Object>> unreachable;
         for (auto& obj : objects) {
